@@ -42,13 +42,8 @@ def passLoop : Nat → Session → Session × Bool × Bool
           else (ss, false, true)   -- would block
     | _ => (ss, false, true)
 
-def op (ss : Session) (toks : List String) : Option (String × Session) :=
-  match toks with
-  | ["feed", xs] => do
-    let xs ← parseList? xs
-    if ss.closed then none else some ("ok", { ss with queue := ss.queue ++ xs })
-  | ["closein"] => some ("ok", { ss with closed := true })
-  | ["pass"] =>
+/-- `pass()` of one portion against the modelled input queue -/
+def doPass (ss : Session) : Option (String × Session) :=
     if ss.queue.length < ss.st.cfg.quantity ∧ !ss.closed then some ("blocked", ss) else
     match ss.st.pc with
     | .idle =>
@@ -67,6 +62,18 @@ def op (ss : Session) (toks : List String) : Option (String × Session) :=
          some (s!"{status} fwd={showList fwd} slept={st2.sleeps.length}",
                { ss' with st := st2, printed := ss'.st.sent.length }))
     | _ => none
+
+def op (ss : Session) (toks : List String) : Option (String × Session) :=
+  match toks with
+  | ["feed", xs] => do
+    let xs ← parseList? xs
+    if ss.closed then none else some ("ok", { ss with queue := ss.queue ++ xs })
+  | ["closein"] => some ("ok", { ss with closed := true })
+  | ["pass"] => doPass ss
+  | ["transferlate", v] => do
+    -- the last element of the portion arrives while `transfer()` is already waiting for it
+    let x ← parseNat? v
+    if ss.closed then none else doPass { ss with queue := ss.queue ++ [x] }
   | ["delay", _d] => some ("ok", ss)
   | _ => none
 
